@@ -322,6 +322,14 @@ func (v V1Configurator) ParseConfiguration(s string) (any, error) {
 	return nil, errors.New("config-v1: provided string neither compatible with profile nor with certificate config")
 }
 
+// Reads one count of a duration string. A component that was left out counts as zero.
+func durationCount(s string) (int, error) {
+	if len(s) == 0 {
+		return 0, nil
+	}
+	return strconv.Atoi(s)
+}
+
 func (cv CertValidity) toTimeStruct() (config.CertificateValidity, error) {
 	out := config.CertificateValidity{}
 	var err error
@@ -356,12 +364,24 @@ func (cv CertValidity) toTimeStruct() (config.CertificateValidity, error) {
 
 			all := durationRx.FindStringSubmatch(cv.Duration)
 
-			// schema already tells us it's conforming, so we ignore errors here
-			y, _ := strconv.Atoi(all[2])
-			m, _ := strconv.Atoi(all[4])
-			d, _ := strconv.Atoi(all[6])
+			// the schema only tells us these are digits, not that they fit
+			y, err := durationCount(all[2])
+			if err != nil {
+				return out, fmt.Errorf(`config-v1: years of "duration" out of range: %v`, err)
+			}
+			m, err := durationCount(all[4])
+			if err != nil {
+				return out, fmt.Errorf(`config-v1: months of "duration" out of range: %v`, err)
+			}
+			d, err := durationCount(all[6])
+			if err != nil {
+				return out, fmt.Errorf(`config-v1: days of "duration" out of range: %v`, err)
+			}
 
 			out.Until = out.From.AddDate(y, m, d)
+			if out.Until.Before(out.From) {
+				return out, errors.New(`config-v1: "duration" is too large to be added to the start date`)
+			}
 			out.IsSet = true
 		} else {
 			//both empty
